@@ -312,7 +312,7 @@ pub fn run(ctx: &Ctx) {
     let idx: Vec<usize> = (0..g.len()).collect();
     ctx.note("grid_cases", json!(g.len()));
     ctx.enumerate("c18.grid", &idx, |i| json!({"index": i}), |i, stats| check_case(&g[*i], stats));
-    let cases = ctx.tier.pick(500, 15000);
+    let cases = ctx.tier.pick(500, 200000);
     ctx.search("c18.random", cases, 40, |tape, stats| check_case(&random_case(tape), stats));
 }
 
